@@ -1,5 +1,19 @@
 (* encode.rs against ISO/IEC 18004 7.4: the packers produce the ISO bit stream, and encode() produces the ISO data
-   codewords (property C06).  Uses the buffer lemmas of PushBits.v. *)
+   codewords (property C06).  Uses the buffer lemmas of PushBits.v (and BitsBase.v).
+
+   Main theorems (all Qed, closed under the global context; nothing is left unproved):
+     alnum_is_table5, is_digit_iso, mode_indicator_iso, widths_iso, constants_iso      (finite checks)
+     iso_payload_bits_length   |iso_payload_bits m input| = iso_payload_len m |input|
+     encode_segment_Ext / encode_segment_bits   the segment theorem (Inv, bits, clen, data length)
+     segment_pushes_ok         every push_bits call made by encode_segment has push_bits_panics = false
+     finish_spec               terminator + pad_to_8 + fill against the tail of iso_codewords
+     encode_is_iso_strong      everything about encode at once (no alphabet / count-width hypotheses needed)
+     encode_is_iso             property C06, exactly as specified
+
+   Remarks: alphabet_ok and "count < 2^cci" are not needed for the bit-level equations (both sides truncate the count
+   the same way, and ascii_to_digit / alnum_val agree with dig / av on every byte); they are kept as (unused)
+   hypotheses in the task-shaped statements encode_segment_bits and encode_is_iso.  The "fits" hypothesis of
+   encode_segment_bits is strict (see PushBits.v). *)
 From Coq Require Import NArith List Bool Arith Lia ZArith.
 From Coq Require Import ZifyBool ZifyNat ZifyN.
 From FQ Require Import Lib.ListX Generated.Tables Model.Types Model.Hardcode Model.Compact Model.Encode
@@ -394,4 +408,166 @@ Proof.
   constructor; [unfold no_panic; cbn [fst snd]; apply push_bits_no_panic; [exact HI | lia]|].
   constructor; [unfold no_panic; cbn [fst snd]; apply push_bits_no_panic; [exact I1 | exact Hc]|].
   destruct m; [now apply numeric_pushes_ok | now apply alnum_pushes_ok | constructor].
+Qed.
+
+(* ------------------------------------------------------------------ terminator, padding, fill *)
+(* the tail of iso_codewords as a function of the data-codeword count and the segment bits *)
+Definition iso_finish (d : nat) (seg : list bool) : list N :=
+  let term := repeat false (Nat.min 4 (8 * d - length seg)) in
+  let s1 := seg ++ term in
+  let s2 := s1 ++ repeat false ((8 - length s1 mod 8) mod 8) in
+  let bytes := bits_bytes s2 in
+  bytes ++ iso_pads (d - length bytes) true.
+
+Lemma iso_codewords_finish m v l input :
+  iso_codewords m v l input = iso_finish (iso_data_codewords v l) (iso_segment_bits m v input).
+Proof. reflexivity. Qed.
+
+Definition finish (c : cq) (dbits : N) : cq := fill (pad_to_8 (add_terminator c dbits)).
+
+Lemma finish_spec c D MB seg :
+  Inv c -> bits_of c = seg -> dlen c = 8 * MB -> 0 < MB -> N.of_nat D <= MB -> (length seg <= 8 * D)%nat ->
+  add_terminator_panics c (N.of_nat D * 8) = false /\
+  Inv (finish c (N.of_nat D * 8)) /\
+  length (cdata (finish c (N.of_nat D * 8))) = length (cdata c) /\
+  firstn D (cdata (finish c (N.of_nat D * 8))) = iso_finish D seg /\
+  push_bits_panics c 0 (N.min (N.of_nat D * 8 - clen c) terminator_max) = false /\
+  push_bits_panics (add_terminator c (N.of_nat D * 8)) 0 ((8 - clen (add_terminator c (N.of_nat D * 8)) mod 8) mod 8) = false /\
+  fill_panics (pad_to_8 (add_terminator c (N.of_nat D * 8))) = false.
+Proof.
+  intros HI Hseg Hk HMB HD Hlen. unfold finish.
+  assert (Hcl : clen c = N.of_nat (length seg)).
+  { rewrite <- Hseg, (bits_of_length c HI). lia. }
+  set (Ls := length seg) in *.
+  (* terminator *)
+  set (tl := N.min (N.of_nat D * 8 - clen c) terminator_max).
+  set (tn := Nat.min 4 (8 * D - Ls)).
+  assert (Htl : N.to_nat tl = tn) by (subst tl tn; change terminator_max with 4; lia).
+  assert (Htl4 : tl <= 4) by (subst tl; change terminator_max with 4; lia).
+  set (c2 := add_terminator c (N.of_nat D * 8)).
+  assert (E2 : Ext c c2 (repeat false tn)).
+  { subst c2. unfold add_terminator. fold tl. rewrite <- Htl, <- be_bits_0.
+    apply push_bits_Ext; [exact HI | lia | rewrite Hk, Hcl; lia]. }
+  assert (P2 : push_bits_panics c 0 tl = false) by (apply push_bits_no_panic; [exact HI | lia]).
+  assert (P1 : add_terminator_panics c (N.of_nat D * 8) = false).
+  { unfold add_terminator_panics. apply N.ltb_ge. lia. }
+  clearbody c2. destruct E2 as (I2 & B2 & L2 & D2). rewrite repeat_length in L2. rewrite Hseg in B2.
+  assert (K2 : dlen c2 = 8 * MB) by (unfold dlen in *; now rewrite D2).
+  set (s1 := seg ++ repeat false tn) in *.
+  assert (Hs1 : length s1 = (Ls + tn)%nat) by (subst s1; now rewrite app_length, repeat_length).
+  (* pad to a byte boundary *)
+  set (pn := ((8 - length s1 mod 8) mod 8)%nat).
+  set (pN := (8 - clen c2 mod 8) mod 8).
+  assert (HpN : N.to_nat pN = pn) by (subst pN pn; rewrite L2, Hcl, Hs1; lia).
+  set (c3 := pad_to_8 c2).
+  assert (E3 : Ext c2 c3 (repeat false pn)).
+  { subst c3. unfold pad_to_8. fold pN. rewrite <- HpN, <- be_bits_0.
+    apply push_bits_Ext; [exact I2 | subst pN; lia | rewrite K2, L2, Hcl; subst pN tn; lia]. }
+  assert (P3 : push_bits_panics c2 0 pN = false) by (apply push_bits_no_panic; [exact I2 | subst pN; lia]).
+  clearbody c3. destruct E3 as (I3 & B3 & L3 & D3). rewrite repeat_length in L3. rewrite B2 in B3.
+  assert (K3 : dlen c3 = 8 * MB) by (unfold dlen in *; now rewrite D3).
+  set (s2 := s1 ++ repeat false pn) in *.
+  assert (Hs2 : length s2 = (Ls + tn + pn)%nat) by (subst s2; now rewrite app_length, repeat_length, Hs1).
+  set (mm := ((Ls + tn + pn) / 8)%nat).
+  assert (Hmm : (Ls + tn + pn = 8 * mm)%nat) by (subst mm pn; rewrite Hs1; clear; lia).
+  assert (HmmD : (mm <= D)%nat) by (subst mm pn tn; rewrite Hs1; clear - Hlen; lia).
+  assert (Hc3 : clen c3 = 8 * N.of_nat mm) by (rewrite L3, L2, Hcl; clear - Hmm; lia).
+  (* fill *)
+  assert (Hfc : fill_count c3 = (N.to_nat MB - mm)%nat).
+  { unfold fill_count. rewrite K3, Hc3. clear - HmmD HD. lia. }
+  set (fc := (N.to_nat MB - mm)%nat) in *.
+  set (c4 := fill c3).
+  assert (E4 : Ext c3 c4 (bytes_bits (iso_pads fc true))).
+  { subst c4. rewrite <- Hfc. apply fill_Ext; [exact I3|]. rewrite Hfc, K3, Hc3. subst fc. clear - HmmD HD HMB. lia. }
+  assert (P4 : fill_panics c3 = false).
+  { unfold fill_panics. rewrite Hc3. replace (8 * N.of_nat mm mod 8) with 0 by (clear; lia). reflexivity. }
+  clearbody c4. destruct E4 as (I4 & B4 & L4 & D4).
+  rewrite bytes_bits_length, iso_pads_length in L4. rewrite B3 in B4.
+  assert (Hc4 : clen c4 = 8 * N.of_nat (mm + fc)) by (rewrite L4, Hc3; clear; lia).
+  split; [exact P1|]. split; [exact I4|]. split; [now rewrite D4, D3, D2|].
+  split; [|split; [exact P2 | split; [exact P3 | exact P4]]].
+  (* the bytes *)
+  pose proof (firstn_cdata c4 (mm + fc) I4 Hc4) as Hbytes. rewrite B4 in Hbytes.
+  rewrite (bits_bytes_app_k mm) in Hbytes by (rewrite Hs2; exact Hmm).
+  rewrite bits_bytes_bytes_bits in Hbytes by apply iso_pads_bytes.
+  assert (Hlb : length (bits_bytes s2) = mm) by (apply bits_bytes_length_k; rewrite Hs2; exact Hmm).
+  replace (firstn D (cdata c4)) with (firstn D (firstn (mm + fc) (cdata c4))).
+  2:{ rewrite firstn_firstn. f_equal. subst fc. clear - HmmD HD. lia. }
+  rewrite Hbytes, firstn_app, Hlb.
+  rewrite (firstn_all2 (bits_bytes s2)) by (rewrite Hlb; exact HmmD).
+  rewrite firstn_iso_pads by (subst fc; clear - HmmD HD; lia).
+  unfold iso_finish. fold Ls. fold tn. fold s1. fold pn. fold s2. rewrite Hlb. reflexivity.
+Qed.
+
+(* ------------------------------------------------------------------ encode = ISO 7.4 data codewords (C06) *)
+Lemma iso_cci_le m v : (iso_cci m v <= 16)%nat.
+Proof.
+  unfold iso_cci. destruct m as [|[|m]];
+    repeat match goal with |- context [if ?b then _ else _] => destruct b end; lia.
+Qed.
+
+Lemma encode_unfold input e m v :
+  encode input e m v = finish (encode_segment (from_version v) m input (cci_bits v m)) (data_bits v e).
+Proof. cbv beta zeta delta [encode finish]. reflexivity. Qed.
+
+(* all the facts at once; hypotheses: version in range, input consists of bytes, the ISO capacity test holds *)
+Theorem encode_is_iso_strong m e v input :
+  (v < 40)%nat -> Forall (fun b => (b < 256)%N) input ->
+  iso_fits (mode_idx m) (ecl_idx e) (N.of_nat (length input)) v = true ->
+  let c1 := encode_segment (from_version v) m input (cci_bits v m) in
+  Inv c1 /\ bits_of c1 = iso_segment_bits (mode_idx m) v input /\
+  add_terminator_panics c1 (data_bits v e) = false /\
+  Inv (encode input e m v) /\
+  length (cdata (encode input e m v)) = N.to_nat (max_bytes v * 8) /\
+  firstn (iso_data_codewords v (ecl_idx e)) (cdata (encode input e m v)) = iso_codewords (mode_idx m) v (ecl_idx e) input /\
+  (* debug-build panics of the bit buffer do not fire *)
+  Forall no_panic (segment_pushes (from_version v) m input (cci_bits v m)) /\
+  push_bits_panics c1 0 (N.min (data_bits v e - clen c1) terminator_max) = false /\
+  push_bits_panics (add_terminator c1 (data_bits v e)) 0 ((8 - clen (add_terminator c1 (data_bits v e)) mod 8) mod 8) = false /\
+  fill_panics (pad_to_8 (add_terminator c1 (data_bits v e))) = false.
+Proof.
+  intros Hv Hin Hfit c1.
+  set (D := iso_data_codewords v (ecl_idx e)).
+  pose proof (data_codewords_is_table9 v e Hv) as HD. fold D in HD.
+  pose proof (cci_is_table3 m v Hv) as Hcci.
+  pose proof (iso_cci_le (mode_idx m) v) as Hcci16.
+  destruct (size_all v e Hv) as [HMB HDM].
+  assert (Hdb : data_bits v e = N.of_nat D * 8).
+  { unfold data_bits. change data_bits_mul with 8. rewrite <- HD. lia. }
+  assert (Hseg : seg_bits m (cci_bits v m) input = iso_segment_bits (mode_idx m) v input).
+  { unfold seg_bits, iso_segment_bits. now rewrite Hcci. }
+  assert (Hlen : N.of_nat (length (iso_segment_bits (mode_idx m) v input)) <= 8 * N.of_nat D).
+  { rewrite <- Hseg, seg_bits_length. unfold iso_fits, iso_need, iso_capacity_bits in Hfit. fold D in Hfit.
+    apply N.leb_le in Hfit. rewrite <- Hcci in Hfit. rewrite N2Nat.id in Hfit. exact Hfit. }
+  destruct (from_version_Inv v) as [I0 B0].
+  pose proof (from_version_dlen v) as K0. change compact_alloc_mul with 8 in K0.
+  assert (L0 : clen (from_version v) = 0) by reflexivity.
+  assert (E1 : Ext (from_version v) c1 (seg_bits m (cci_bits v m) input)).
+  { subst c1. apply encode_segment_Ext; [exact I0 | exact Hin | lia |].
+    rewrite L0, K0, Hseg. lia. }
+  assert (S1 : Forall no_panic (segment_pushes (from_version v) m input (cci_bits v m))).
+  { apply segment_pushes_ok; [exact I0 | lia]. }
+  rewrite encode_unfold. fold c1. clearbody c1.
+  destruct E1 as (I1 & B1 & _ & D1). rewrite B0, Hseg in B1. cbn [app] in B1.
+  assert (K1 : dlen c1 = 8 * max_bytes v) by (unfold dlen in *; rewrite D1, K0; lia).
+  rewrite Hdb.
+  destruct (finish_spec c1 D (max_bytes v) _ I1 B1 K1 HMB) as (P1 & I4 & D4 & Hcw & P2 & P3 & P4); [lia | lia |].
+  split; [exact I1|]. split; [exact B1|]. split; [exact P1|]. split; [exact I4|].
+  split; [rewrite D4; unfold dlen in K1; lia|].
+  split; [rewrite Hcw; symmetry; apply iso_codewords_finish|].
+  split; [exact S1|]. split; [exact P2|]. split; [exact P3 | exact P4].
+Qed.
+
+(* Property C06 *)
+Theorem encode_is_iso : forall m e v input,
+  (v < 40)%nat -> alphabet_ok m input = true -> Forall (fun b => (b < 256)%N) input ->
+  iso_fits (mode_idx m) (ecl_idx e) (N.of_nat (length input)) v = true ->
+  (N.of_nat (length input) < 2 ^ N.of_nat (iso_cci (mode_idx m) v))%N ->
+  encode_panic input e m v = None /\
+  firstn (iso_data_codewords v (ecl_idx e)) (cdata (encode input e m v)) = iso_codewords (mode_idx m) v (ecl_idx e) input.
+Proof.
+  intros m e v input Hv Hok Hin Hfit _.
+  destruct (encode_is_iso_strong m e v input Hv Hin Hfit) as (_ & _ & P1 & _ & _ & Hcw & _).
+  split; [|exact Hcw].
+  unfold encode_panic. rewrite Hok. cbn [negb]. rewrite P1. reflexivity.
 Qed.
